@@ -1,7 +1,8 @@
 """C13 -- assembled matrices are sums of component matrices placed at the components' amplitude ranges.
 
 Functions under contract (Python layer, symbolic execution): PanelAssembly.__init__, get_size, calc_k0, calc_kG0, calc_kM,
-calc_kT, calc_fint, calc_fext; Panel.calc_* below them down to the kernel contracts.  StiffPanelBay: see c13_bay.
+calc_kT, calc_fint, calc_fext; Panel.calc_* below them down to the kernel contracts.  StiffPanelBay: see c13_bay.  Stiffener kernels (nine functions of stiffener/models/*.pyx): c13_stiffk; BladeStiff1D / BladeStiff2D
+classes: py_stiffeners (TStiff2D is under contract in C12).
 """
 import sys
 from ..core import run_check
@@ -20,6 +21,10 @@ def body(led):
     A.check_fext(led)
     from . import c13_bay
     c13_bay.body(led)
+    from . import c13_stiffk, py_stiffeners
+    c13_stiffk.body(led)
+    py_stiffeners.check_bladestiff1d(led)
+    py_stiffeners.check_bladestiff2d(led)
 
 
 def main():
